@@ -177,6 +177,8 @@ def gen_schema_src(r, depth, opts=None):
     o = opts or {}
     top = 13 if depth > 0 else 9
     c = r.randrange(top)
+    if depth > 0 and r.random() < 0.5:
+        c = r.choice([9, 9, 10, 10, 11, 12])      # favour containers while depth remains
     if o.get("no_alias") and c == 12:
         c = r.randrange(12)
     rec = lambda: gen_schema_src(r, depth - 1, opts)
